@@ -31,6 +31,8 @@ META = {
 META['explanation'] += ' ' + 'R5: protocol constants, and the LDAP StartTLS request parser compares the request name with the OID its composer writes (class constants resolved). R8: explicit rejections against the reviewed table.'
 
 META['explanation'] += ' ' + 'R11: flag keyed optional parts (shared with C01.R12). R12: flag / timestamp tabulation incl. repeated members.'
+
+META['explanation'] += ' ' + 'R13 / R14: no function changes a module level container / class level state on the way from bytes to message. R15: reported lengths (shared with C03.R3).'
 MODULES = {'cryptoparser.tls.mysql', 'cryptoparser.tls.rdp', 'cryptoparser.tls.openvpn', 'cryptoparser.tls.postgresql', 'cryptoparser.tls.ldap'}
 HERE = os.path.dirname(os.path.dirname(os.path.abspath(__file__)))
 
